@@ -230,7 +230,7 @@ def dialect_class(case):
         if k in d:
             out[k] = d[k]
     if "blocks" in d:
-        out["blocks"] = "1" if d["blocks"] == 1 else ">1"
+        out["blocks"] = "1" if d["blocks"] == 1 else (">1" if d["blocks"] < 10 else ">=10")
     if "multi" in d:
         out["multi"] = bool(d["multi"])
     if case.get("via_file"):
@@ -491,6 +491,25 @@ def case_ugrid(ctx, case, sc):
     if status == "encode-mismatch":
         ctx.mismatch("C01/ugrid/encode", case, *info)
         return
+    if status == "ambiguous":
+        # undeclared base and node 0 unused: outside the quantifier (no verdict); the rule itself is
+        # `ugrid_undeclared_decodes`, and model and implementation must both follow it
+        w_f = max(map(len, faces)) + dl["extra_w"]
+        rhs = common.Tok(d.ask("C01.undeclared", w_f, enc_rows(faces))).rows()
+        ds[nm["conn"]] = xr.DataArray(arr, dims=[nm["fd"], nm["md"]], attrs=dict(at, cf_role="face_node_connectivity"))
+        want = dec_res(d.ask("C01.ugrid", STORE_CODE[store_of(arr.dtype)], enc_optcell(at.get("_FillValue")), enc_optint(None), enc_raw(arr)))
+        ctx.case(("ugrid-ambiguous", dl, faces[:40]), nontrivial=True)
+        try:
+            got = observe(ux.open_grid(ds))["table"]
+        except Exception as e:
+            ctx.notes.append(f"ugrid ambiguous undeclared base: reader raises {type(e).__name__}")
+            return
+        ctx.hit("ugrid-ambiguous-undeclared-base(face table):" + ("rebased-to-lowest-index" if got == rhs else "other"))
+        if want != rhs:
+            ctx.mismatch("C01/ugrid/undeclared-rule/model-vs-theorem/face_node_connectivity", case, want[:20], rhs[:20])
+        elif got != rhs:
+            ctx.mismatch("C01/ugrid/undeclared-rule/face_node_connectivity", case, got[:20], rhs[:20])
+        return
     if status != "ok":
         ctx.hit("outside-quantifier(DialectOK fails)")
         return
@@ -554,9 +573,17 @@ def case_ugrid(ctx, case, sc):
             ctx.fail(f"C01/ugrid/carried/{name}/raises", f"ugrid: supplied {name} raises {type(e).__name__}: {str(e)[:120]}", case)
             continue
         if o["status"] == "ambiguous":
-            # undeclared base and the lowest index unused: the source itself is ambiguous, no verdict; recorded
-            ctx.hit("ugrid-ambiguous-undeclared-base:" + ("decoded-as-the-elements" if got == o["pad"] else
-                                                         ("equals-model" if got == o["want"] else "other")))
+            # undeclared base and the lowest index unused: the source itself is ambiguous (outside the property's
+            # quantifier, never a verdict).  What the rule does is a theorem (`ugrid_undeclared_decodes`: the element
+            # lists counted from their lowest index); the model and the implementation must both be that.
+            rows, _ = elems[name]
+            w_t = max(map(len, rows)) + t["extra_w"]
+            rhs = common.Tok(d.ask("C01.undeclared", w_t, enc_rows(rows))).rows()
+            ctx.hit("ugrid-ambiguous-undeclared-base:" + ("rebased-to-lowest-index" if got == rhs else "other"))
+            if o["want"] != rhs:
+                ctx.mismatch("C01/ugrid/undeclared-rule/model-vs-theorem/" + name, case, o["want"][:20], rhs[:20])
+            elif got != rhs:
+                ctx.mismatch("C01/ugrid/undeclared-rule/" + name, case, got[:20], rhs[:20])
             continue
         ctx.hit("carried-table-checked")
         ctx.hit(f"ugrid-carried:{name}:{tcls}")
@@ -925,10 +952,13 @@ def case_exodus(ctx, case, sc):
         ds["coordz"] = xr.DataArray(xyz[:, 2].copy(), dims=["num_nodes"])
         ds["coor_names"] = xr.DataArray(np.array([b"x", b"y", b"z"]), dims=["num_dim"])
     tabs = []
+    ids = dl.get("block_ids") or list(range(1, len(blocks) + 1))
     for i, b in enumerate(blocks):
         t = np.array([[v + 1 for v in f] for f in b], dtype=NP_STORE[dl.get("store", "i32")])
         tabs.append(t)
-        ds[f"connect{i + 1}"] = xr.DataArray(t, dims=[f"num_el_in_blk{i + 1}", f"num_nod_per_el{i + 1}"],
+        # the element order of an Exodus file is the order of its blocks IN THE FILE (ascending block number here:
+        # connect2 before connect10, and the numbering may have gaps)
+        ds[f"connect{ids[i]}"] = xr.DataArray(t, dims=[f"num_el_in_blk{ids[i]}", f"num_nod_per_el{ids[i]}"],
                                             attrs=dict(elem_type={3: "TRI", 4: "QUAD"}.get(t.shape[1], "NSIDED")))
     if case.get("via_file"):
         path = sc.path(".exo")
@@ -1183,6 +1213,121 @@ def lon_case(ctx, lons):
 
 
 # --------------------------------------------------------------------------------------
+# malformed-input stream (OUTSIDE the property's quantifier: never a verdict).  What the real code rejects
+# as "unknown format", and which reader an accepted dataset reaches, is compared with the Lean model
+# `Readers.sniff` (theorems sniff_rejects_iff / sniff_mpas_iff / sniff_ugrid_iff); a disagreement is counted
+# and noted.  A few malformed sources per reader record accept / reject.
+# --------------------------------------------------------------------------------------
+
+MARKERS = ["coord", "coordx", "gridCenterLon", "attrNodeCoords", "attrFaceNode", "attrTopoDim", "roleMeshTopo", "verticesOnCell",
+           "dimMaxNodePElement", "dimNf", "dimYC", "dimXC", "vertexOfCell"]
+FMT_CODE = {0: "rejected", 1: "exodus", 2: "scrip", 3: "ugrid", 4: "mpas", 5: "esmf", 6: "geos", 7: "icon"}
+SPEC_NAME = {"Exodus": "exodus", "Scrip": "scrip", "UGRID": "ugrid", "MPAS": "mpas", "ESMF": "esmf", "GEOS-CS": "geos", "ICON": "icon"}
+
+
+def marker_dataset(on):
+    import xarray as xr
+
+    ds = xr.Dataset()
+    z = np.zeros
+    if "coord" in on:
+        ds["coord"] = xr.DataArray(z((3, 3)), dims=["num_dim", "num_nodes"])
+    if "coordx" in on:
+        ds["coordx"] = xr.DataArray(z(3), dims=["num_nodes_x"])
+    if "gridCenterLon" in on:
+        ds["grid_center_lon"] = xr.DataArray(z(2), dims=["grid_size"])
+    for k, (attr, val) in dict(attrNodeCoords=("node_coordinates", "x y"), attrFaceNode=("face_node_connectivity", "fn"),
+                               attrTopoDim=("topology_dimension", 2), roleMeshTopo=("cf_role", "mesh_topology")).items():
+        if k in on:
+            ds["v_" + k] = xr.DataArray(np.int32(0), attrs={attr: val})
+    if "verticesOnCell" in on:
+        ds["verticesOnCell"] = xr.DataArray(np.ones((2, 3), dtype=np.int32), dims=["nCells", "maxEdges"])
+    for k, dim in dict(dimMaxNodePElement="maxNodePElement", dimNf="nf", dimYC="YCdim", dimXC="XCdim").items():
+        if k in on:
+            ds["d_" + dim] = xr.DataArray(z(2), dims=[dim])
+    if "vertexOfCell" in on:
+        ds["vertex_of_cell"] = xr.DataArray(np.ones((3, 2), dtype=np.int32), dims=["nv", "cell"])
+    return ds
+
+
+def reader_reached(ux, ds):
+    """`rejected` (unknown format), or the reader the dataset was dispatched to (it may then fail on the
+    incomplete dataset: the deepest uxarray/io frame of the traceback tells which reader ran)"""
+    import re
+    import traceback
+
+    try:
+        g = ux.Grid.from_dataset(ds)
+        return SPEC_NAME.get(g.source_grid_spec, str(g.source_grid_spec)), "accepted"
+    except RuntimeError as e:
+        if "recognize" in str(e):
+            return "rejected", "RuntimeError"
+        err = e
+    except Exception as e:
+        err = e
+    reached = "unknown"
+    for fr in traceback.extract_tb(err.__traceback__):
+        mm = re.search(r"uxarray/io/_(\w+)\.py$", fr.filename)
+        if mm:
+            reached = {"geopandas": "geo", "topology": "topology", "vertices": "vertices"}.get(mm.group(1), mm.group(1))
+    return reached, type(err).__name__
+
+
+def malformed_stream(ctx):
+    import uxarray as ux
+    import xarray as xr
+
+    rng, d = ctx.rng, ctx.driver
+    for _ in range(ctx.n(60, 600)):
+        k = rng.choice([0, 1, 1, 2, 2, 3, 4])
+        on = set(rng.sample(MARKERS, k))
+        if rng.random() < 0.25:
+            on |= {"attrNodeCoords", "attrFaceNode", "attrTopoDim", "roleMeshTopo"} - ({rng.choice(MARKERS[3:7])} if rng.random() < 0.5 else set())
+        if rng.random() < 0.15:
+            on |= {"dimNf", "dimYC", "dimXC"} - ({rng.choice(MARKERS[9:12])} if rng.random() < 0.5 else set())
+        model = FMT_CODE[int(d.ask("C01.sniff", *[1 if m in on else 0 for m in MARKERS]))]
+        reached, how = reader_reached(ux, marker_dataset(on))
+        ctx.hit("malformed-stream:sniff:" + model)
+        if reached == model:
+            ctx.hit("malformed-stream:model-agrees")
+        else:
+            ctx.hit("malformed-stream:model-DISAGREES")
+            if len([x for x in ctx.notes if x.startswith("malformed stream")]) < 5:
+                ctx.notes.append(f"malformed stream: markers {sorted(on)}: model says {model}, implementation reached {reached} ({how})")
+    # a few malformed sources per reader: what the real code does is recorded (no verdict)
+    lon, lat = np.array([0.0, 10.0, 10.0, 0.0]), np.array([0.0, 0.0, 10.0, 10.0])
+
+    def record(label, fn, model=None):
+        try:
+            fn()
+            out = "accepted"
+        except Exception as e:
+            out = "rejected:" + type(e).__name__
+        ctx.hit(f"malformed-stream:{label}:{out}")
+        if model is not None:
+            agree = (out == "accepted") == (model == "accepted")
+            ctx.hit("malformed-stream:model-agrees" if agree else "malformed-stream:model-DISAGREES")
+            if not agree and not any(label in x for x in ctx.notes):
+                ctx.notes.append(f"malformed stream: {label}: the model {model}s, the implementation {out}")
+
+    # UGRID-like table with a NaN that is not the declared fill
+    bad = np.array([[0, 1, 2, np.nan]])
+    m_bad = d.ask("C01.topology", enc_optcell(-1), 0, enc_raw(bad))
+    record("topology:NaN-not-the-declared-fill", lambda: ux.Grid.from_topology(lon, lat, bad.copy(), fill_value=-1),
+           "accepted" if m_bad.startswith("ok") else "reject")
+    record("topology:index-out-of-range", lambda: ux.Grid.from_topology(lon, lat, np.array([[0, 1, 9]]), fill_value=-1).face_node_connectivity)
+    mp = xr.Dataset(dict(verticesOnCell=(("nCells", "maxEdges"), np.array([[1, 2, 3]], dtype=np.int32)),
+                         cellsOnVertex=(("nVertices", "vertexDegree"), np.array([[1, 0, 0]] * 3, dtype=np.int32)),
+                         lonVertex=(("nVertices",), np.zeros(3)), latVertex=(("nVertices",), np.zeros(3))))
+    record("mpas:missing-nEdgesOnCell", lambda: ux.open_grid(mp))
+    es = xr.Dataset(dict(elementConn=(("elementCount", "maxNodePElement"), np.array([[1, 2, 3]], dtype=np.int32)),
+                         numElementConn=(("elementCount",), np.array([3], dtype=np.int32))))
+    record("esmf:missing-nodeCoords", lambda: ux.open_grid(es))
+    record("vertices:wrong-rank", lambda: ux.open_grid(np.zeros(3), latlon=True))
+    record("open_grid:unsupported-object", lambda: ux.open_grid(3.5))
+
+
+# --------------------------------------------------------------------------------------
 # generators
 # --------------------------------------------------------------------------------------
 
@@ -1262,20 +1407,29 @@ def gen_esmf(rng, m):
     return c
 
 
-def gen_exodus(rng, m):
+def gen_exodus(rng, m, many=False):
     by = {}
     for f in m.faces:
         by.setdefault(len(f), []).append(list(f))
     blocks = []
     for k, fs in by.items():
-        if len(fs) > 1 and rng.random() < 0.3:  # the same element type in two blocks
+        if many and len(fs) > 1:  # many small blocks of the same element type
+            step = max(1, len(fs) // rng.choice([4, 6, 9]))
+            blocks += [fs[i : i + step] for i in range(0, len(fs), step)]
+        elif len(fs) > 1 and rng.random() < 0.3:  # the same element type in two blocks
             cut = rng.randrange(1, len(fs))
             blocks += [fs[:cut], fs[cut:]]
         else:
             blocks.append(fs)
     rng.shuffle(blocks)
+    # block numbers: 1..k, or ascending with gaps (blocks deleted from a larger file)
+    ids, cur = [], 0
+    gaps = rng.random() < 0.4
+    for _ in blocks:
+        cur += rng.choice([1, 1, 2, 4]) if gaps else 1
+        ids.append(cur)
     c = base_case("exodus", m, block_faces=blocks, blocks=len(blocks), coords=rng.choice(["coord", "coordxyz"]),
-                  store=rng.choice(["i32", "i64"]))
+                  store=rng.choice(["i32", "i64"]), block_ids=ids)
     c["faces"] = [f for b in blocks for f in b]
     c["via_file"] = rng.random() < 0.25
     return c
@@ -1365,9 +1519,13 @@ def generated(ctx, sc):
                 ctx.hit("mesh-with-unused-leading-nodes")
             plan = [gen_ugrid(rng, mu), gen_ugrid(rng, mu), gen_ugrid(rng, m), gen_topology(rng, mu), gen_topology(rng, m),
                     gen_mpas(rng, mu), gen_esmf(rng, mu), gen_exodus(rng, mu), gen_vertices(rng, m)]
-            for c in plan[:2]:
+            for c in plan[:1]:
                 if mu is not m:
                     c["dialect"]["declared"] = True  # the base cannot be inferred when the lowest node is unused
+            if mu is not m and rng.random() < 0.5:
+                # an optional table without start_index over a node list whose lowest nodes are unused
+                plan[0]["dialect"]["tables"] = dict(edge_node_connectivity=dict(draw_table_dialect(rng, True), declared=False, order=0, via="attr"))
+            # plan[1] keeps its drawn `declared`: when undeclared it is the ambiguous dialect (recorded, no verdict)
             if m.n_face <= 300:
                 plan.append(gen_scrip(rng, m))
             if m.n_face <= 60:
@@ -1390,6 +1548,8 @@ def generated(ctx, sc):
         for m in tri_meshes(rng):
             run_case(ctx, gen_icon(rng, m), sc)
             run_case(ctx, gen_exodus(rng, m), sc)
+        for m in (meshes.cube_sphere(rng.choice([2, 3])), meshes.hull(rng.choice([14, 20]), rng), meshes.dual_of(meshes.hull(24, rng)).merge_some(rng, tries=4)):
+            run_case(ctx, gen_exodus(rng, m.renumber(rng), many=True), sc)
         for _ in range(4):
             run_case(ctx, gen_geos(rng), sc)
         # uniform meshes: the "no fill at all" dialects
@@ -1635,6 +1795,7 @@ def run(ctx):
             corpus_cases(ctx, sc)
             corpus_files(ctx)
         generated(ctx, sc)
+        malformed_stream(ctx)
     finally:
         sc.close()
 
